@@ -178,6 +178,46 @@ def task_mutated(a, env):
     return r
 
 
+def sweep_case(cfg, n):
+    """anchor (hash, key) pairs signed again after n signatures on pairwise distinct other inputs"""
+    from .. import lib as _lib
+    S, m = L.get(cfg)
+
+    def call(x):
+        o = L.call(S.ecdsa_raw_sign, x[0], x[1])
+        return ("ok", tuple(o[1])) if o[0] == "ok" and isinstance(o[1], tuple) else o
+
+    def expect(x):
+        d, z = int.from_bytes(x[1], "big"), int.from_bytes(x[0], "big")
+        return ("ok", m.sign_with_k(d, z, ecdsa.nonce(x[0], x[1])))
+
+    def ok(x):
+        w = expect(x)[1]
+        return w is not None and w[2] != 0 and w[1] % m.n != 0 and w[1] < m.n
+
+    anchors = [x for x in ((bytes([i + 1]) * 32, (1 + i).to_bytes(32, "big")) for i in range(6)) if ok(x)][:4]
+    distinct = (x for x in (((j + 1000).to_bytes(32, "big"), (2 + j % (m.n - 2)).to_bytes(32, "big")) for j in range(4 * n)) if ok(x))
+    return _lib.sweep(call, anchors, distinct, n, expect)
+
+
+def task_sweep(a, env):
+    r = R("anchors-again-after-n-distinct-signatures")
+    for cfg, n in a["cases"]:
+        bad = sweep_case(cfg, n)
+        r.ev += n + 4 * 20
+        r.dk.add(str(cfg))
+        if bad:
+            r.viol("C06:%s:stale-after-many-distinct" % ("full" if cfg == "full" else "tiny"), ME + ":replay_sweep",
+                   {"cfg": cfg, "n": bad[0]}, bad[2], bad[3], note="anchor %d after %d distinct signatures" % (bad[1], bad[0]))
+    r.sample({"history": "sign(a0..a3); sign(d1); sign(a0..a3); sign(d2); ..."})
+    return r
+
+
+def replay_sweep(a):
+    bad = sweep_case(a["cfg"], a["n"])
+    return None if not bad else {"after": bad[0], "anchor": bad[1], "expected": bad[2], "observed": bad[3]}
+
+
 def replay_mut(a):
     hs = [bytes([i + 1]) * 32 for i in range(3)] + [b"\x01" * 32]
     for step, exp, got in mut_case(a["cfg"], int(a["d"], 16), hs):
@@ -217,4 +257,6 @@ def run(ctx):
     step = 12 if ctx.quick else 25
     tasks += [("full", {"lo": i, "step": step}) for i in range(step)]
     tasks.append(("mutated", {"cfgs": ["full", list(cur[0]), list(cur[2])], "ds": [1, 5, 12345 % 11 + 2]}))
+    tasks.append(("sweep", {"cases": [["full", 100 if ctx.quick else 1100]]}))
+    tasks.append(("sweep", {"cases": [[list(cur[0]), 1100 if ctx.quick else 5000], [list(cur[2]), 300]]}))
     ctx.pmap(ME, tasks)
